@@ -49,6 +49,19 @@ prop("C06", level="exploration",
      assumptions=["documented per-format mappings as transcribed in fdiff()", "strict structural compare"],
      stages=[dict(name="binrt", driver="c06_binroundtrip", flagset="asan", quick=250000, thorough=6000000)])
 
+prop("C09", level="exploration",
+     level_text="History monitor: random operation sequences (construct, copy/move construct and assign, swap, insert_or_assign, try_emplace, operator[], push/emplace_back, insert, erase by key/"
+                "iterator/range, merge, merge_or_update (copy and move), resize, reserve, shrink_to_fit, clear, lookups; also applied to nested containers) over pools of 4 json and 4 ojson values are mirrored on an "
+                "independent plain C++ model; after every operation every slot must serialise exactly like its model (sorted keys for json, insertion order for ojson), return values and lookups must agree, "
+                "moved-from values must stay usable; ASan+UBSan watch the rest. Relational laws (reflexive, symmetric, </> consistency, equality vs ordering, equality vs serialization) over all pairs of a "
+                "catalogue of every storage kind and tag, and is<T>() => as<T>() exact for 12 arithmetic types.",
+     level_note="Random histories of 50-400 operations, not exhaustive; the model's ojson ordering rules (assign keeps position, new keys append, merge appends in source order) are the documented behaviour. "
+                "NaN values are excluded from the relational laws; number-tagged strings are excluded from the 'equal prints identically' law.",
+     technique="runtime monitoring: in-process reference-model history monitor + relational law monitor, ASan/UBSan",
+     rule="histories of 50-400 random operations over 4 slots, keys from an 8-key alphabet (SSO boundary, empty, escapes), values from the model generator; distinct = distinct operation trace; every history is non-trivial",
+     assumptions=["plain C++ model drivers/common/model.hpp", "values read through public observers only"],
+     stages=[dict(name="container", driver="c09_container", flagset="asan", quick=12000, thorough=3000000)])
+
 prop("C16", level="exploration",
      level_text="Every generated (target, patch) pair and (source, target) pair is executed against the real apply_merge_patch/from_diff for json and ojson under ASan+UBSan and "
                 "judged by an RFC 7386 transcription over an independent value model; held means no mismatch on the pairs explored (counts in evidence).",
